@@ -77,8 +77,9 @@ pub fn exec_c03(plan: &C03Plan, st: &mut Stats) -> Option<Violation> {
         st.add("steps", 1);
         match step {
             Step::Cleanup => {
-                if let Outcome::Panic(p) = slot.cleanup() {
-                    return viol("panic", format!("cleanup_buffers at step {si}: {p}"));
+                if let Outcome::Panic(_) = slot.cleanup() {
+                    st.inc("panic_not_judged_here");
+                    return None;
                 }
             }
             Step::Rejected { pic } => {
@@ -95,7 +96,10 @@ pub fn exec_c03(plan: &C03Plan, st: &mut Stats) -> Option<Violation> {
                     st.inc(&format!("fault.{}.fired", t.name()));
                 }
                 match o {
-                    Outcome::Panic(pp) => return viol("panic", format!("corrupted picture at step {si}: {pp}")),
+                    Outcome::Panic(_) => {
+                        st.inc("panic_not_judged_here"); // C01's verdict
+                        return None;
+                    }
                     Outcome::Ok => {
                         // accepted after all: re-synchronise the model from the real decoder
                         st.inc("corrupted_picture_accepted");
@@ -153,7 +157,13 @@ pub fn exec_c03(plan: &C03Plan, st: &mut Stats) -> Option<Violation> {
                     cut.map(|c| format!(", only the first {c} of {} bytes delivered", bytes.len())).unwrap_or_default()
                 );
                 if let Outcome::Panic(pp) = &o {
-                    return viol("panic", format!("{what}: {pp}"));
+                    // A crash is C01's verdict.  It is a C03 violation only if a complete,
+                    // valid PREDICTED picture fails to decode because of it.
+                    if cut.is_none() && spec.ptype != PType::I && !tainted {
+                        return viol("valid predicted picture not decoded (panic)", format!("{what}: {pp}"));
+                    }
+                    st.inc("panic_not_judged_here");
+                    return None;
                 }
                 let present = if cut.is_some() { marks.mbs_within(upto) } else { spec.mbs.len() };
                 // Does this picture need prediction?  Every macroblock that is not
@@ -186,11 +196,14 @@ pub fn exec_c03(plan: &C03Plan, st: &mut Stats) -> Option<Violation> {
                             st.inc("not_valid_in_this_state");
                             continue;
                         }
+                        if cut.is_none() && spec.ptype == PType::I {
+                            // C03 speaks about predicted pictures only (intra pictures are C02,
+                            // not claimed): counted, not judged
+                            st.inc("intra_picture_rejected_not_judged");
+                            continue;
+                        }
                         if cut.is_none() {
-                            return viol(
-                                &format!("valid {} picture rejected", if needs_ref { "predicted" } else { "intra" }),
-                                format!("{what}: {e}"),
-                            );
+                            return viol("valid predicted picture rejected", format!("{what}: {e}"));
                         }
                         // truncated: the statement does not say which cuts are an
                         // "early end" and which are an error; a failed call is C05's business
@@ -211,12 +224,18 @@ pub fn exec_c03(plan: &C03Plan, st: &mut Stats) -> Option<Violation> {
                             }
                             Ok(exp) => {
                                 if let Err(e) = recon::compare(&exp, &snap) {
+                                    if spec.ptype == PType::I {
+                                        // intra reconstruction is C02 (not claimed); the real output
+                                        // still serves as the reference of the next step
+                                        st.inc("intra_picture_differs_from_model_not_judged");
+                                        st.hs(&e);
+                                        reference = Some(snap);
+                                        continue;
+                                    }
                                     let class = if cut.is_some() {
                                         "picture after an early end of data differs from the model"
-                                    } else if needs_ref {
-                                        "predicted picture differs from the model"
                                     } else {
-                                        "intra picture differs from the model"
+                                        "predicted picture differs from the model"
                                     };
                                     return viol(class, format!("{what}; {present} of {} macroblocks present: {e}", spec.mb_count()));
                                 }
